@@ -52,6 +52,10 @@ def run(pid, tier):
     core.import_repo()
     rng = random.Random(core.seed() * 7919 + 17)
     cfgs = seqtest.configs(tier)
+    if pid in ("C05", "C12"):
+        # the tiny-margin optimal_comparison configuration is a recorded finding of C13 / C01 / C11 (negative statistic);
+        # what follows from a negative statistic is not judged again under other properties
+        cfgs = [c for c in cfgs if "optcomp-tiny" not in c["name"]]
     null_inv, any_inv, props = MC_FORMULAS[pid]
     depth_of = lambda c: (5 if tier == "quick" else 6) if c["N"] == 0 else c["N"]
 
